@@ -28,7 +28,7 @@ func drawConfig(t *rapid.T, o simOpts) sim.Config {
 		o.MaxN, o.MaxHeight = 10, 4
 	}
 	n := rapid.IntRange(4, o.MaxN).Draw(t, "n")
-	wclass := rapid.IntRange(0, 5).Draw(t, "wclass")
+	wclass := rapid.IntRange(0, 6).Draw(t, "wclass")
 	ws := make([]uint64, n)
 	for i := range ws {
 		switch wclass {
@@ -43,6 +43,17 @@ func drawConfig(t *rapid.T, o simOpts) sim.Config {
 			}
 		case 3:
 			ws[i] = uint64(rapid.IntRange(1, 3).Draw(t, "w"))
+		case 6: // some members carry no weight at all (they still take their turn as leader; their votes add nothing)
+			ws[i] = uint64(rapid.IntRange(0, 3).Draw(t, "w"))
+			if i == n-1 {
+				tot := uint64(0)
+				for _, x := range ws {
+					tot += x
+				}
+				if tot == 0 {
+					ws[i] = 1
+				}
+			}
 		case 5: // stake-sized weights: totals far above 2^53, where any arithmetic through float64 goes wrong (total < 2^64 for n <= 10)
 			ws[i] = uint64(rapid.IntRange(1, 4).Draw(t, "w"))<<58 + uint64(rapid.IntRange(0, 3).Draw(t, "wlow"))
 		default:
@@ -388,6 +399,12 @@ func recordSim(col *ev.Collector, w *sim.World) {
 	}
 	if w.Cfg.Weights[0] >= 1<<53 {
 		col.Class("weights>2^53")
+	}
+	for _, x := range w.Cfg.Weights {
+		if x == 0 {
+			col.Class("zero-weight-member")
+			break
+		}
 	}
 	col.Class(fmt.Sprintf("maxview=%d", minU(w.Obs.MaxView, 6)))
 	col.Class(fmt.Sprintf("heights-done=%d", w.Obs.HeightsDone))
